@@ -248,6 +248,16 @@ def check(rep, ctx):
             rep.limit(f"{c_}: {msg_}")
             continue
         rep.check(R_TD, ok_, construct=c_, stmt=stmt_, message=msg_, file=file_, line=line_)
+    R_VD = rep.rule("C11-r-value-domain", "a scalar reader raises for no value its format carries and its Python type represents (guards of the "
+                    "returning paths evaluated at boundary values, infinities and NaNs, the extremes of timedelta and datetime)", floor=15,
+                    necessary_because="a reader that passes its result through a narrower validating type (f64 = finite floats, i64Timedelta = "
+                                      "all but the last day) rejects canonical encodings of +Infinity, NaN, or a 64-bit duration near the maximum")
+    from .wire import scalar_reader_domain_rows
+    for ok_, c_, stmt_, msg_, line_ in scalar_reader_domain_rows(prims):
+        if ok_ is None:
+            rep.limit(f"{c_}: {msg_}")
+            continue
+        rep.check(R_VD, ok_, construct=c_, stmt=stmt_, message=msg_, file="src/kio/serial/readers.py", line=line_)
     # every raw read of the readers module is a checked exact read ---------------------------------------------
     R_X = rep.rule("C11-exact-reads", "every read in kio.serial.readers is length-checked with equality before its bytes are used", floor=1,
                    necessary_because="read(n) with a negative n returns everything up to EOF; `len(value) < n` never fires, so 'ff fe hello' "
